@@ -5,7 +5,7 @@ CONSTANTS
   Inners = {"chatIn"}
   Gens = {"v1", "v2"}
   JidCfgs = {"plain", "mixed"}
-  Hows = {"setJid", "setUserDomain", "assign", "copySetJid"}
+  Hows = {"setJid", "setUserDomain"}
   MaxHist = 4
 CONSTRAINT Bound
 ACTION_CONSTRAINT EmitBehaviour
